@@ -19,6 +19,7 @@ import XdslModel.Literals
 import XdslModel.IRApi
 import XdslModel.RewriteDriver
 import XdslModel.ParallelMov
+import XdslModel.Loops
 /-!
 Model registry for the driver: `MODEL <name>` selects a `(state, lineStep)` pair.
 A continuation-passing encoding is used because the state types differ.
@@ -50,6 +51,7 @@ def run? (name : String) : Option Runner :=
   | "ir_store" => some fun k => k IR.lineStep {}
   | "rewrite_driver" => some fun k => k RewriteDriver.lineStep {}
   | "parallel_mov" => some fun k => k ParallelMov.lineStep ()
+  | "loops" => some fun k => k Loops.lineStep ()
   | _ => none
 
 end Xdsl.Registry
